@@ -47,6 +47,11 @@
 (*                     the sweeps to x = 2*v; its own name is a token of its equation,  *)
 (*                     so MoveDecorative never sets it aside; it can never be evaluated *)
 (*                     once-through (time-zero passes, decorative pass)               *)
+(*   fn     u          `x = uf(u)`  a USER FUNCTION registered with AddFunction before   *)
+(*                     the solve (uf(v) = 2*v + 1).  Its name is a token of the       *)
+(*                     equation.  The periods k >= 1 see registered functions, the    *)
+(*                     time-zero passes (3 and 4 alike) do not: there `uf` is an      *)
+(*                     unknown name and the equation is stepped over.                 *)
 (*   prod u v  `x = u * v`    quo u v  `x = u / v`  (divisor; systems in which the    *)
 (*                     divisor is 0 in some period k >= 1 are not generated - at k = 0 *)
 (*                     it may be, see Close mode "zero"; the spec reads               *)
@@ -87,9 +92,10 @@ CONSTANTS
                     \* FALSE = such a variable is kept (what C03 needs)
 
 NoIC == -1
-Poison == -1000         \* value of a name that cannot be evaluated (never reached on well-posed systems)
+Poison == -2000000011   \* value of a name that cannot be evaluated (never read; far outside the values of the instances)
 TimeVar == "t"
 K == "k"
+FnName == "uf"
 
 D(kind, u, v, n, p) == [kind |-> kind, u |-> u, v |-> v, n |-> n, p |-> p]
 TimeDef == D("time", "", "", 0, << >>)
@@ -103,6 +109,7 @@ Names(d) ==
       [] d.kind \in {"sum", "diff", "prod", "quo", "self"} -> {d.u, d.v}
       [] d.kind = "lag"                        -> {d.u, K}
       [] d.kind = "time"                       -> {K}
+      [] d.kind = "fn"                         -> {d.u, FnName}
       [] OTHER                                 -> {}
 
 (* replace_token(eqn, x, y) *)
@@ -124,6 +131,7 @@ Den(d, val) ==
       [] d.kind = "time"                -> val[K]
       [] d.kind \in {"neg", "negs", "negb"} -> 0 - val[d.u]
       [] d.kind = "prod"                -> val[d.u] * val[d.v]
+      [] d.kind = "fn"                  -> 2 * val[d.u] + 1
       [] d.kind = "self"                -> 2 * val[d.v]          \* the fixed point of x = 0.5*x + v
       [] d.kind = "quo"                 -> TruncDiv(val[d.u], val[d.v])
       [] d.kind = "sq"                  -> val[d.u] * val[d.u]
@@ -196,7 +204,8 @@ SolStep(sys, prev, kval, ei) ==
                    ELSE IF x \in exos THEN sys.exo[ExoOf(sys, x)].p[ei]
                    ELSE IF x \in lags THEN prev[sys.lagged[LagOf(sys, x)].src]
                    ELSE Poison]
-        rE == Close(sys.endo, base, exos \cup lags \cup {K}, Len(sys.endo), "sweep")
+        \* (self.Functions is part of the working dictionary of a period)
+        rE == Close(sys.endo, base, exos \cup lags \cup {K, FnName}, Len(sys.endo), "sweep")
         rD == Close(sys.deco, rE.val, rE.known, Len(sys.deco), "once")
     IN rD.val
 
@@ -247,8 +256,8 @@ Horizon == 3
 WellPosed(sys, alldefs) ==
     LET vars == SysVars(sys)
         base == [x \in vars \cup {K} |-> 0]
-        r == Close(sys.endo, base, SeqVars(sys.exo) \cup SeqVars(sys.lagged) \cup {K}, Len(sys.endo), "sweep")
-    IN /\ \A x \in DOMAIN alldefs : Names(alldefs[x]) \subseteq vars \cup {K}
+        r == Close(sys.endo, base, SeqVars(sys.exo) \cup SeqVars(sys.lagged) \cup {K, FnName}, Len(sys.endo), "sweep")
+    IN /\ \A x \in DOMAIN alldefs : Names(alldefs[x]) \subseteq vars \cup {K, FnName}
        /\ SeqVars(sys.endo) \subseteq r.known
        /\ (\E x \in DOMAIN alldefs : alldefs[x].kind \in {"sq", "nsq", "prod"}) => sys.lagged = << >>
        \* a self-reference is solved to within the tolerance only: keep the gain of what reads it at <= 2
@@ -396,6 +405,7 @@ Options(i) ==
           \cup { TimeDef }
           \cup { D(kd, u, "", 0, << >>) : kd \in {"neg", "negs", "negb", "sq", "nsq"}, u \in others }
           \cup { D("self", x, v, 0, << >>) : v \in others }
+          \cup { D("fn", u, "", 0, << >>) : u \in others }
           \cup { D("quo", q[1], q[2], 0, << >>) : q \in { r \in others \X others : r[1] # r[2] } }
           \cup { D("prod", q[1], q[2], 0, << >>) : q \in { r \in others \X others : Idx(r[1]) < Idx(r[2]) } }
           \cup { D("dbl", u, "", 2, << >>) : u \in others }
